@@ -530,6 +530,67 @@ func init() {
 			{Name: "unusual-runes", N: func(c *Ctx) int { return len(c04Runes) }, Run: c04UnusualRunes, Exhaustive: true},
 			{Name: "long", N: c04LongN, Run: c04Long, Exhaustive: true},
 			{Name: "json-number-text", N: c04NumN, Run: c04NumText, Exhaustive: true},
+			{Name: "string-token-bytes", N: c04ByteN, Run: c04Bytes, Exhaustive: true},
 		},
 	})
+}
+
+// ---- string-like tokens over a byte alphabet
+//
+// The three delimited tokens (raw string, quoted identifier, JSON literal) are scanned by code that
+// looks for the closing delimiter and for backslashes; everything between is text that must still be
+// well-formed UTF-8.  Every sequence of up to four pieces from an alphabet of delimiters, backslash,
+// 1- and 2-byte characters, stray continuation / lead / impossible bytes and a truncated 3-byte
+// sequence is put between each pair of delimiters (and, up to length 5, on its own): 3 x 13^4 + 13^5
+// texts in thorough, lengths <= 3 resp. 4 in quick.
+
+var c04BytePieces = []string{"'", "\"", "`", "\\", "a", "é", "\xff", "\xc3", "\x80", "\xe2\x82", "1", " ", "\\\\"}
+
+func c04ByteN(c *Ctx) int {
+	k := len(c04BytePieces)
+	if c.Tier == "thorough" {
+		return 3*(1+k+k*k+k*k*k+k*k*k*k) + k*k*k*k*k
+	}
+	return 3*(1+k+k*k+k*k*k) + k*k*k*k
+}
+
+func c04ByteText(c *Ctx, idx int) string {
+	k := len(c04BytePieces)
+	maxIn, free := 3, 4
+	if c.Tier == "thorough" {
+		maxIn, free = 4, 5
+	}
+	per := 0
+	for n, p := 0, 1; n <= maxIn; n, p = n+1, p*k {
+		per += p
+	}
+	seq := func(i, n int) string {
+		var b strings.Builder
+		for j := 0; j < n; j++ {
+			b.WriteString(c04BytePieces[i%k])
+			i /= k
+		}
+		return b.String()
+	}
+	if idx < 3*per {
+		d := []string{"'", "\"", "`"}[idx/per]
+		i := idx % per
+		for n, p := 0, 1; ; n, p = n+1, p*k {
+			if i < p {
+				return d + seq(i, n) + d
+			}
+			i -= p
+		}
+	}
+	return seq(idx-3*per, free)
+}
+
+func c04Bytes(c *Ctx, idx int) {
+	t := c04ByteText(c, idx)
+	for _, text := range []string{t, "a == " + t, "[" + t + "]"} {
+		pr := c.CheckGrammar(text, map[string]string{"family": "string-token-bytes"})
+		if pr.Status != ref.ParseGap {
+			c.Nontrivial(text)
+		}
+	}
 }
